@@ -9,7 +9,7 @@ use core::fmt::Write;
 // repeated here, which keeps core::fmt's padding machinery and the strftime scanner out of the formula.
 // @ob tier=quick timeout=900 mem=14
 // @desc item-level format/parse inverse for %H:%M:%S: the real writer's text for the items [Hour, ":", Minute, ":", Second] parses back (format::parse + Parsed::to_naive_time) to the same time of day, for every time with fraction 0 and for every leap second (printed as 60, read back as the leap representation)
-// @bounds all times of day with fraction 0, plus fraction exactly 10^9 on any second (leap representation); items concrete
+// @bounds all times of day with fraction 0, plus fraction exactly 10^9 on a second 59 (the leap representation the constructors admit); items concrete
 // @funcs DelayedFormat::write_to, format_numeric, format::parse / parse_internal, scan::number, Parsed::{set_*, to_naive_time}
 #[kani::proof]
 #[kani::unwind(10)]
@@ -17,7 +17,7 @@ fn c13_items_hms() {
     use chrono::format::{parse, Item, Numeric, Pad, Parsed};
     let s: u32 = kani::any();
     let leap: bool = kani::any();
-    kani::assume(s < 86_400);
+    kani::assume(s < 86_400 && (!leap || s % 60 == 59));
     let t = NaiveTime::from_num_seconds_from_midnight_opt(s, if leap { 1_000_000_000 } else { 0 }).unwrap();
     let items = [
         Item::Numeric(Numeric::Hour, Pad::Zero),
